@@ -165,6 +165,14 @@ package statefulset
 //@   ensures gWrites >= old(gWrites) && gPodTouch >= old(gPodTouch)
 
 //@ sortspec ascendingOrdinal: ordOf(a) <= ordOf(b)
+// the comparator the sort specification above stands for, and the two other methods of the sort.Interface
+//@ func ascendingOrdinal.Less
+//@   requires 0 <= i && i < len(ao) && 0 <= j && j < len(ao) && ao[i] != nil && ao[j] != nil
+//@   pure
+//@   ensures [C03,C05,C14] byordinal: result == (ordOf(ao[i]) < ordOf(ao[j]))
+//@ func ascendingOrdinal.Len
+//@   pure
+//@   ensures [C05,C14] result == len(ao)
 
 //@ func ApplyRevision
 //@   trusted "strategicpatch.StrategicMergePatch and the JSON codecs are outside the translator's reach; the revision data only carries spec.template"
